@@ -7,7 +7,8 @@ CFG = {
              "(tab/space x width 0,1,2,4,8 x quote style); part 1 is exhaustive over a boundary pool of ~130 doubles (one and two ulps and +-eps around 0, +-1, 2, 0.5, 1.5, 2.5, "
              "1000, +-2^31, +-2^31+-1, eps, 3e9, 1e300, 2^53, -0.0) put into kerning, ascender, a blue-values pair and unitsPerEm; Font::save_with_options then Font::load; "
              "compared: which files exist, metainfo, integer-vs-real of every number written to fontinfo.plist and kerning.plist, layercontents, colour strings, feature bytes, "
-             "the loaded font field by field. non-trivial = at least one optional part present; distinct by input tokens"),
+             "the loaded font field by field (glyphs per NAME -> content incl. the order of the code points). Every save goes to a target in one of six prior states (absent, empty, complete bigger UFO, the same with junk, "
+             "partial UFO remains without metainfo, junk directory); name pools hold groups that sanitise to one file name with non-ASCII capitals; part 3: foreign trees with non-default glif names are loaded, edited through insert_glyph, saved and loaded (C04 edit lines). non-trivial = at least one optional part present; distinct by input tokens"),
     "exhaustive": {"quick": False, "thorough": False},
     "exhaustive_note": "part 1 enumerates the whole boundary pool of doubles for the three number writers; the font space itself is sampled",
     "timeout": {"quick": 600, "thorough": 7200},
